@@ -72,7 +72,12 @@ VALID_EXTRA = [
     "int a = -8 >> 1; int b = -7 % 3; int c = -7 / 2; long d = -9223372036854775807L % 10; long e = -1L >> 63;\n"
     "int f = (-5 < 3) + (-5 < 3u) * 2; unsigned g = -1 / 2u; long h = (int)0x80000000u >> 4; int i = (char)200 + (short)70000;\n"
     "unsigned long j = -1UL % 7; int k = -2147483647 - 1 < 0; long l = 1L << 62 >> 3; double m = -7 / 2 + (-7.0 / 2);\n"
-    "int n = (unsigned char)-1 >> 3; long o = -17 / -5 * (-17 % -5); int p[-3 % 2 + 2]; int q = (-1 ^ 5) >> 1 | -16 >> 2;\n",
+    "int n = (unsigned char)-1 >> 3; long o = -17 / -5 * (-17 % -5); int p[-3 % 2 + 2]; int q = (-1 ^ 5) >> 1 | -16 >> 2;\n"
+    # every relational operator of eval.c's signed cases with operands of different sign, at each width
+    "int r1 = (-1 >= 0) + 2 * (0 >= -1) + 4 * (-1 <= 0) + 8 * (0 <= -1) + 16 * (-1 > 0) + 32 * (0 > -1) + 64 * (-1 < 0) + 128 * (0 < -1);\n"
+    "int r2 = (-1L >= 0L) + 2 * (0L >= -1L) + 4 * (-1L <= 0L) + 8 * (0L <= -1L) + 16 * (-1L > 0L) + 32 * (0L > -1L) + 64 * (-1L < 0L) + 128 * (0L < -1L);\n"
+    "int r3 = (-9223372036854775807LL >= 5) + 2 * (5 >= -9223372036854775807LL) + 4 * (-2 == -2LL) + 8 * (-2 != 4294967294u) + 16 * (-2 < 1u);\n"
+    "enum R { R1 = -1 >= 0, R2 = 7 >= -7, R3 = -7 >= 7, R4 = -7 <= 7 }; int r4[(-1 >= 0) + (0 >= -1) + 1];\n",
     # float formatting / parsing paths of the compiler (%.17g, strtod, strtof, strtoull)
     "float f = 1e999; double d = 0x1.8p3; float g = 1.5e-50f; double h = 4.9e-324; int i = 077; int j = 0b101;\n"
     "long k = 18446744073709551615u; double arr[] = {1.0/3, 2.5e10, 1e22, 1e23, 5e-324, 1.7976931348623157e308,\n"
@@ -101,7 +106,7 @@ def const_unit(rng, n):
         return rng.choice(["0.1", "0.2", "1.5", "2.25", "1677.7217", "3.0e-5", "12345.125", "0.333333333333", "1e-3", "7.0"])
     lines = []
     for i in range(n):
-        k = rng.randrange(14)
+        k = rng.randrange(17)
         a, b = big(), big()
         if k == 0:
             e, t = "%d" % a, rng.choice(["double", "float"])
@@ -129,6 +134,14 @@ def const_unit(rng, n):
             e, t = "(%s)%duLL >> %d" % (rng.choice(["int", "long", "short", "unsigned"]), a, rng.randrange(0, 15)), "long"
         elif k == 12:
             e, t = "(unsigned long)(%s * 1e6) + (unsigned)(%sf * 100)" % (sflt(), sflt()), "unsigned long"
+        elif k == 14:
+            # relational/equality operators on signed constants of either sign and of every width (eval.c's TLESS|S ... cases)
+            sv = lambda: "%s%d%s" % (rng.choice(["-", "-", ""]), rng.choice([0, 1, 2, 7, 2147483647, 4294967296, 9223372036854775807, a >> 2]), rng.choice(["", "L", "LL"]))  # noqa: E731
+            e, t = "(%s %s %s) + 2 * (%s %s %s)" % (sv(), rng.choice(["<", ">", "<=", ">=", "==", "!="]), sv(), sv(), rng.choice(["<", ">", "<=", ">="]), sv()), "int"
+        elif k == 15:
+            e, t = "(-%dLL %s %duLL) + (-%d %s %du)" % (a >> 3, rng.choice(["<", ">", "<=", ">="]), b, a % 1000, rng.choice(["<", ">=", "/", "%"]), (b % 1000) + 1), "long"
+        elif k == 16:
+            e, t = "-%dLL %s %dLL" % (a >> 2, rng.choice(["/", "%", ">>", "*", "-", "+"]), rng.choice([1, 2, 3, 7, 31])), "long long"
         else:
             e, t = "%s / %s + (float)%d / %d" % (flt(), flt(), a % 100000, (b % 1000) + 1), rng.choice(["double", "float"])
         lines.append("%s c%d = %s;" % (t, i, e))
